@@ -159,6 +159,10 @@ class VMFCACGMMTrainer:
             np.linalg.norm(observation, axis=-1, keepdims=True),
             np.finfo(observation.dtype).tiny,
         )
+        embedding = embedding / np.maximum(
+            np.linalg.norm(embedding, axis=-1, keepdims=True),
+            np.finfo(embedding.dtype).tiny
+        )
 
         F, T, D = observation.shape
         _, _, E = embedding.shape
